@@ -542,8 +542,17 @@ type run struct {
 	FiGrew bool
 }
 
-func runSource(src string, watchSelf bool) *run {
+// timeouts: number of runs that hit the watchdog; after a few the remaining random cases are skipped
+var timeouts int
+
+func runSource(src string, watchSelf bool) *run { return runSourceT(src, watchSelf, 120*time.Second) }
+
+func runSourceT(src string, watchSelf bool, timeout time.Duration) *run {
 	r := &run{}
+	if timeouts >= 6 {
+		r.CErr = "not run: the watchdog fired repeatedly before"
+		return r
+	}
 	c, err := lib.CompileSource([]byte(src), lib.CompileOpts{})
 	if err != nil {
 		r.CErr = err.Error()
@@ -554,7 +563,7 @@ func runSource(src string, watchSelf bool) *run {
 	var pending *site
 	pendFi := 0
 	var stack *[tengo.StackSize]tengo.Object
-	r.Out = lib.RunBytecode(c, lib.RunOpts{Timeout: 120 * time.Second, Probe: func(v *tengo.VM, fn *tengo.CompiledFunction, ip, sp, bp, fi int, a int64) {
+	r.Out = lib.RunBytecode(c, lib.RunOpts{Timeout: timeout, Probe: func(v *tengo.VM, fn *tengo.CompiledFunction, ip, sp, bp, fi int, a int64) {
 		if fi > r.MaxFi {
 			r.MaxFi = fi
 		}
@@ -750,7 +759,11 @@ func checkSpec(s *Spec, depths []int, deep int) {
 			}
 			return
 		}
-		rr := runSource(src, true)
+		to := 120 * time.Second
+		if d <= 1000 {
+			to = 20 * time.Second
+		}
+		rr := runSourceT(src, true, to)
 		key := src
 		res.Count(stream, key, d >= 2 && len(s.Params)+len(s.Locals) >= 1)
 		res.Dist("form:" + s.Form)
@@ -767,8 +780,16 @@ func checkSpec(s *Spec, depths []int, deep int) {
 		}
 		res.Sample(map[string]interface{}{"form": s.Form, "depth": d, "source": src, "class": rr.class(), "max_fi": rr.MaxFi, "max_sp": rr.MaxSp}, 4)
 		if rr.class() == "timeout" {
-			res.Skipped++
-			continue
+			timeouts++
+			if d <= 1000 {
+				// the loop finished; the recursion of the same depth did not within 20 s (it takes milliseconds)
+				res.Violate(lib.Violation{Signature: "recursion-does-not-terminate:" + s.Form, Stream: stream, Input: in,
+					Observed: fmt.Sprintf("still running after %v at depth %d (max framesIndex %d, max sp %d)", to, d, rr.MaxFi, rr.MaxSp),
+					Expected: "terminates like the derived loop", Oracle: "derived loop terminated; watchdog"})
+			} else {
+				res.Skipped++
+			}
+			return
 		}
 		if rr.class() == "compile-error" {
 			res.Skipped++
@@ -1050,12 +1071,22 @@ func closedForms(depths []int) {
 				"f := func(n, k) { if n == 0 { return 5 }; if k { f(n-1, k) }; if !k { return f(n-1, k) } }\na := f(3, true)\nb := f(3, false)\nc := f(2, true)\nout := [a, b, c]\n", "(a u (i 5) u)", 0})
 		}
 		for _, c := range cases {
-			rr := runSource(c.src, true)
+			to := 120 * time.Second
+			if d <= 1000 {
+				to = 20 * time.Second
+			}
+			rr := runSourceT(c.src, true, to)
 			res.Count("tail", c.src, true)
 			res.Dist("closed-form:" + c.name)
 			in := caseInput{Depth: d, Source: c.src}
 			if rr.class() == "timeout" {
-				res.Skipped++
+				timeouts++
+				if d <= 1000 {
+					res.Violate(lib.Violation{Signature: "recursion-does-not-terminate:closed-form-" + c.name, Stream: "tail", Input: in,
+						Observed: fmt.Sprintf("still running after %v", to), Expected: "out = " + c.want, Oracle: "closed form; watchdog"})
+				} else {
+					res.Skipped++
+				}
 				continue
 			}
 			if rr.class() != "ok" {
@@ -1134,7 +1165,7 @@ func main() {
 	frameBoundary()
 
 	rng := lib.NewRNG(f.Seed)
-	n := f.Scale(150, 4000)
+	n := f.Scale(150, 1500)
 	for i := 0; i < n; i++ {
 		r := rng.Fork()
 		var form string
@@ -1144,6 +1175,11 @@ func main() {
 			form = tailForms[(i-i/3)%len(tailForms)]
 		}
 		s := genSpec(r, form)
+		if timeouts >= 4 {
+			res.Skipped++
+			res.Dist("skip:after-timeouts")
+			continue
+		}
 		if isTailForm(form) {
 			ds := tailDepths
 			if f.Thorough() && i%40 == 0 {
